@@ -128,6 +128,27 @@ func gen(tier string) []proto.RTItem {
 			items = append(items, proto.RTItem{Scn: r, Class: fmt.Sprintf("http/%s-%s/port=%d", k.proto, k.method, p)})
 		}
 	}
+	// (E') the same numbers spelled with a leading zero or a plus sign (still decimal numbers): the TTL and port grids once more
+	for _, sp := range []string{"leading-zero", "plus"} {
+		for _, k := range ks[:2] {
+			for _, max := range ttlVals {
+				if max < 0 {
+					continue
+				}
+				r := req(k, 1, max, 33434, 3)
+				r.HTTP, r.IntSpelling = true, sp
+				items = append(items, proto.RTItem{Scn: r, Class: fmt.Sprintf("http/%s-%s/max-ttl=%d/spelled-%s", k.proto, k.method, max, sp)})
+			}
+			for _, p := range portVals {
+				if p <= 0 {
+					continue
+				}
+				r := req(k, 1, 9, p, 3)
+				r.HTTP, r.IntSpelling = true, sp
+				items = append(items, proto.RTItem{Scn: r, Class: fmt.Sprintf("http/%s-%s/port=%d/spelled-%s", k.proto, k.method, p, sp)})
+			}
+		}
+	}
 	// (F) the command-line front end (first TTL fixed at 1, send delay fixed at 50 ms), run in-process over the simulated wire
 	for _, k := range ks {
 		if tier != "thorough" && strings.Contains(k.target, ":") && k.proto == "icmp" {
